@@ -163,6 +163,9 @@ func MakeStructBuilder(model any, optArgs ...FillerFuncArg) (Provider, error) {
 
 	// Type verification
 	t := reflect.TypeOf(model)
+	if t == nil {
+		return nil, fmt.Errorf("MakeStructBuilder must be given a struct or a pointer to a struct, not nil")
+	}
 	if debugFiller {
 		fmt.Println("filler type", t.String())
 	}
